@@ -1226,3 +1226,7 @@ mod imp {
 }
 
 pub use self::imp::*;
+
+#[cfg(kani)]
+#[path = "/verif/kani/syntax.rs"]
+mod verif_kani;
